@@ -142,7 +142,7 @@ def accumulation(ex, uni, kind, nmax):
     nsrc = 2
     shape = (2, 2, 2)
     # concrete cell sizes here (the index arithmetic with symbolic cell sizes is the subject of cell_index)
-    steps = (0.5, 1.0, 2.0) if kind == 'cartesian' else (0.5, 45.0, 2.0)      # angular cells of 45 degrees: period 90
+    steps = (0.5, 1.0, 2.0) if kind == 'cartesian' else (0.5, 60.0, 2.0)      # angular cells of 60 degrees: period 120 (does not divide 180, so a wrong wrap offset shows)
     rmin = 0.25 if kind == 'cylindrical' else 0
     mod, mat, vm = _mk_material(uni, ex, kind, shape, steps, nsrc, rmin)
     Integ = mod.CartesianRayTransferIntegrator if kind == 'cartesian' else mod.CylindricalRayTransferIntegrator
@@ -205,11 +205,11 @@ def accumulation(ex, uni, kind, nmax):
             r = radii[it]
             a = angles[it]
             ph = a + 360.0
-            # moving into [0, period): period = 90
-            per = 90.0
+            # moving into [0, period): period = number of angular cells * angular step
+            per = shape[1] * steps[1]
             k_ = _floor_cell(ex, ph / per)
             ph = ph - k_ * per
-            q = [(r - rmin) / steps[0], ph / 45.0, pos[2] / steps[2]]
+            q = [(r - rmin) / steps[0], ph / steps[1], pos[2] / steps[2]]
         for k in range(3):
             ex.assume(q[k] >= 0, 'sample inside the grid')
             ex.assume(q[k] < shape[k], 'sample inside the grid')
@@ -231,14 +231,14 @@ def accumulation(ex, uni, kind, nmax):
          tiers={'quick': [{'kind': k} for k in ('cartesian', 'cylindrical')], 'thorough': [{'kind': k} for k in ('cartesian', 'cylindrical')]},
          functions=[EM + '.CartesianRayTransferEmitter.emission_function', EM + '.CylindricalRayTransferEmitter.emission_function'],
          cover=['looked-up'],
-         bounds={'point': 'symbolic point inside the grid; cell sizes, inner radius symbolic; 2 x 2 x 2 cells, angular cell 45 degrees (period 90)'},
+         bounds={'point': 'symbolic point inside the grid; cell sizes, inner radius symbolic; 2 x 2 x 2 cells, angular cell 60 degrees (period 120)'},
          stubs=['atan2: harness-supplied symbolic angle; the same point is also looked up one period further'],
          outside=['floating-point rounding at cell borders'])
 def cell_index(ex, uni, kind):
     shape = (2, 2, 2)
     steps = (ex.real('d0', pos=True), ex.real('d1', pos=True), ex.real('d2', pos=True))
     if kind == 'cylindrical':
-        steps = (steps[0], 45.0, steps[2])
+        steps = (steps[0], 60.0, steps[2])      # period 120 degrees: does not divide 180, so a wrong wrap offset shows
     rmin = ex.real('rmin', nonneg=True) if kind == 'cylindrical' else 0
     mod, mat, vm = _mk_material(uni, ex, kind, shape, steps, 3, rmin)
     x, y, z = ex.real('x'), ex.real('y'), ex.real('z')
@@ -249,7 +249,7 @@ def cell_index(ex, uni, kind):
         shift = bool(ex.bool('one_period_further'))
         a2 = ang
         if shift:
-            a2 = ang + 90.0
+            a2 = ang + 2 * steps[1]
             ex.assume(a2 <= 180)
         cur = {'a': ang}
         g['atan2'] = lambda yy, xx: (cur['a'] / core.CR(180.0 / math.pi)) if ex.sym else cur['a'] / (180.0 / math.pi)
@@ -271,7 +271,10 @@ def cell_index(ex, uni, kind):
     if kind == 'cartesian':
         ok += [ex.le(ib * 1, q1), ex.lt(q1, ib + 1)]
     else:
-        ok += [ib >= 0, ib < 2]
+        per = 2 * steps[1]
+        ph = ang + 360.0
+        ph = ph - _floor_cell(ex, ph / per) * per          # the documented wrap of atan2's (-180, 180] into [0, period)
+        ok += [ib >= 0, ib < 2, ex.le(ib * steps[1], ph), ex.lt(ph, (ib + 1) * steps[1])]
     ex.prove(ex.all(ok), 'cell-index-satisfies-i*d<=coordinate<(i+1)*d')
     src = vm[ia, ib, ic] if ex.sym else vm[ia, ib, ic]
     for sidx in range(3):
